@@ -423,6 +423,18 @@ def TemporalScore_ok (u0 : Nat) (u1 : Nat) (u2 : Nat) (u3 : Nat) (u4 : Nat) (u5 
 def tbl_okPanicFree : (List (List Nat)) :=
   [([67, 86, 83, 83, 51, 48, 46, 71, 101, 116] : List Nat), ([67, 86, 83, 83, 51, 48, 46, 83, 101, 116] : List Nat), ([67, 86, 83, 83, 51, 48, 46, 86, 101, 99, 116, 111, 114] : List Nat), ([67, 86, 83, 83, 51, 48, 46, 103, 101, 116] : List Nat), ([69, 114, 114, 68, 101, 102, 105, 110, 101, 100, 78, 46, 69, 114, 114, 111, 114] : List Nat), ([69, 114, 114, 73, 110, 118, 97, 108, 105, 100, 77, 101, 116, 114, 105, 99, 46, 69, 114, 114, 111, 114] : List Nat), ([69, 114, 114, 77, 105, 115, 115, 105, 110, 103, 46, 69, 114, 114, 111, 114] : List Nat), ([82, 97, 116, 105, 110, 103] : List Nat), ([108, 101, 110, 86, 101, 99] : List Nat), ([109, 97, 110, 100, 97, 116, 111, 114, 121] : List Nat), ([109, 111, 100] : List Nat), ([110, 111, 116, 77, 97, 110, 100, 97, 116, 111, 114, 121] : List Nat), ([112, 111, 119, 49, 53] : List Nat), ([114, 111, 117, 110, 100, 117, 112] : List Nat), ([118, 97, 108, 105, 100, 97, 116, 101] : List Nat)]
 
+/-- functions containing a pre-sized buffer `make([]T, 0, cap)` (one entry per occurrence) -/
+def pkg_presized : List String :=
+  ["CVSS30.Vector"]
+
+/-- every mention of package unsafe (function or `decl`:unsafe.X, one entry per occurrence) -/
+def pkg_unsafe_all : List String :=
+  ["CVSS30.Vector:unsafe.Pointer"]
+
+/-- sha256 (first 16 hex digits) of each verification hooks file -/
+def hook_sha : List String :=
+  []
+
 /-- import paths of the package's source files (alias=path when renamed) -/
 def pkg_imports : List String :=
   ["errors", "fmt", "math", "strings", "unsafe"]
